@@ -32,8 +32,8 @@ CHECKS = {
    "6.3"),
  "C13": (True, "chain13", "model_checking",
    "explicit-state BFS over add/remove requests (one defect per request) on the real tracker of a real node, independent accept/reject prediction, atomicity + follow-up probe",
-   "All sequences of valid and single-defect add/remove requests (wrong previous hash, insufficient work, changed bits, proof for another block, wrong filter header / height in the attestation, untrusted key, too few or duplicated oracles, forged attestation signature, omitted spend, non-streamed full-block proof; wrong previous header / filter header on removal) over blocks that are empty, confirm the watched funding txid or spend a watched outpoint, with 0-4 trusted oracles, compact and streamed delivery and restarts, until closure. Accepting a defective request, changing any state on rejection, or failing the correct request afterwards is a violation.",
-   "Real regtest headers and txoo proofs built by the harness; chain of <= 3 (4) blocks above genesis; retarget boundaries are not reached through the node API (see DESIGN).",
+   "All sequences of valid and single-defect add/remove requests (wrong previous hash, insufficient work, changed bits, proof for another block, wrong filter header / height in the attestation, untrusted key, too few or duplicated oracles, forged attestation signature, omitted spend, non-streamed full-block proof; wrong previous header / filter header on removal) over blocks that are empty, confirm the watched funding txid or spend a watched outpoint, and of otherwise valid blocks claiming a target 2, 4 or 8 times harder / easier than the tip's or the network maximum, on and off a retarget boundary, with 0-4 trusted oracles, compact and streamed delivery and restarts, until closure. Accepting a defective request, changing any state on rejection, or failing the correct request afterwards is a violation.",
+   "Real regtest headers and txoo proofs built by the harness; chain of <= 3 (4) blocks above genesis, above a filled header window, or above a checkpoint next to a retarget boundary on a tip 1-64 times harder than the network maximum. The retarget rule is the one the tracker documents (at most a factor of four per boundary, never above the network maximum); timestamps are not part of it.",
    "6.1"),
  "C14": (True, "chainmc", "model_checking",
    "explicit-state BFS over connect/disconnect paths through AddBlock/RemoveBlock/BlockChunk on a real node; differential oracle against a fresh signer that connects only the best chain",
